@@ -282,6 +282,11 @@ def removal_nodes(g, rd, target: str):
     return removers, nothing
 
 
+def is_pure_arg(a) -> bool:
+    """names, attribute chains and constants: evaluating them cannot raise in a running TaskRunner"""
+    return all(isinstance(x, (ast.Name, ast.Attribute, ast.Constant, ast.Load)) for x in ast.walk(a))
+
+
 def r6_cleanup_order(chk: Check):
     tree = chk.tree
     f = tree.func("run", "TaskRunner.cleanup")
@@ -308,7 +313,8 @@ def r6_cleanup_order(chk: Check):
               if src(t) == "self.cleaned" and not (ff is init) and not (ff is f and isinstance(v, ast.Constant) and v.value is True)]
     chk.require(ok and not others, chk.fkey(f, "first call cleans"), f"the first call of cleanup must remove the pid file: the `cleaned` flag must start False, be tested negatively, and only be set (to True) by cleanup itself {others or ''}", loc)
     def harmless(c, n):
-        return is_logging_call(c) or (isinstance(c.func, ast.Attribute) and c.func.attr in ("is_file", "exists") and rdc.canon(c.func.value, n) == "self.pidfile")
+        return is_logging_call(c) or (isinstance(c.func, ast.Attribute) and c.func.attr in ("is_file", "exists") and rdc.canon(c.func.value, n) == "self.pidfile") \
+            or (isinstance(c.func, ast.Name) and c.func.id in ("len", "str", "repr", "int", "bool", "type", "isinstance", "id") and all(is_pure_arg(a) for a in c.args))
 
     before = [n for n in g.live if n is not r and r.id in g.reachable(n) and any(not harmless(c, n) for c in n.calls())]
     chk.require(not before, chk.fkey(f, "pid removal first"),
